@@ -32,7 +32,12 @@ type simCase struct {
 	OutFile     bool
 	Flags       []string
 	Split       []string
-	FinalStates bool
+	// FINALSTATES <k>: 0 = final states go to the output file; 1 = -final-states <fresh file>;
+	// 2 = -final-states <the file the initial states are read from> (a hot-start file updated in place: states.h5
+	//     when LAYOUT st != 0, else the structure file in.h5); 3 = -final-states in.h5 (the structure file);
+	// 4 = -final-states <the time-series file> (ts.h5 when LAYOUT ts != 0, else in.h5)
+	FinalStates     bool
+	FinalStatesMode int
 	// LAYOUT <ts> <par> <st> <pre> (optional, before END): where ow-sim is told to find things.
 	//   ts/par/st: 0 = in the structure file in.h5 (no flag);
 	//              1 = ONLY in a separate file given by -input-timeseries / -parameters / -initial-states;
@@ -222,7 +227,11 @@ func parseCase(fn string) (c *simCase, err error) {
 		c.Split = append(c.Split, t.next())
 	}
 	t.expect("FINALSTATES")
-	c.FinalStates = t.bool01()
+	c.FinalStatesMode = t.int()
+	if c.FinalStatesMode > 4 {
+		t.fail("FINALSTATES must be 0..4")
+	}
+	c.FinalStates = c.FinalStatesMode != 0
 	if t.i < len(t.t) && t.t[t.i] == "LAYOUT" {
 		t.next()
 		c.LayoutTS = t.int()
